@@ -105,7 +105,8 @@ def run_unit(unit, scratch, builddir):
     env = dict(os.environ, VX_BUILD_DIR=builddir)
     p = subprocess.run([ROOT + '/bin/check', '--unit', unit, '--repo', scratch, '--no-evidence'], capture_output=True, text=True, env=env, timeout=900)
     red = sorted(set(re.findall(r'^\s*FAIL (\S+)', p.stdout + p.stderr, re.M)))
-    und = 'UNDECIDED' in p.stdout
+    m = re.search(r'UNDECIDED[^\n]*?: (.*)', p.stdout)
+    und = m.group(1)[:260] if m else ''
     return p.returncode, red, und
 
 def work(job):
@@ -183,5 +184,8 @@ for unit in units:
         fh.write('## survivors (equivalent mutant or contract hole)\n\n| extract | file:line | mutation | original line |\n|---|---|---|---|\n')
         for r in surv:
             fh.write(f'| {r[1]} | {r[2]}:{r[3]} | {r[4]} | `{r[5][:140]}` |\n')
+        fh.write('\n## rejected / undecided mutants (reason given by the unit)\n\n| extract | file:line | mutation | reason |\n|---|---|---|---|\n')
+        for r in undec:
+            fh.write(f'| {r[1]} | {r[2]}:{r[3]} | {r[4]} | {str(r[9])[:220]} |\n')
     print(f'{unit}: caught={len(caught)} undecided={len(undec)} survived={len(surv)}', flush=True)
 shutil.rmtree('/scratch/mutscan', ignore_errors=True)
